@@ -228,7 +228,11 @@ Section Judgement.
         J (SReturn2 a er) e None
     | JCall2 cs x xe g args e : args_ok e (fun i => SParam g i) args ->
         forallb (fun a => use_ok (prods_of_atom e a)) args = true ->
-        J (SCall2 cs x xe g args) e (Some (call2_env e cs x xe g)).
+        J (SCall2 cs x xe g args) e (Some (call2_env e cs x xe g))
+    | JRetCall cs g args e : args_ok e (fun i => SParam g i) args ->
+        forallb (fun a => use_ok (prods_of_atom e a)) args = true ->
+        Has (mk_trigger 0 (PSite (SResult g)) (CSite (SResult f))) ->
+        J (SRetCall cs g args) e None.
 
   Lemma J_skip_inv e o : J SSkip e o -> o = Some e.
   Proof. inversion 1; subst; auto. Qed.
@@ -277,6 +281,11 @@ Section Judgement.
     o = Some (call2_env e cs x xe g).
   Proof. inversion 1; subst; auto. Qed.
 
+  Lemma J_retcall_inv cs g args e o : J (SRetCall cs g args) e o ->
+    args_ok e (fun i => SParam g i) args /\ forallb (fun a => use_ok (prods_of_atom e a)) args = true /\
+    Has (mk_trigger 0 (PSite (SResult g)) (CSite (SResult f))) /\ o = None.
+  Proof. inversion 1; subst; auto. Qed.
+
   Lemma arg_triggers_ok e sf : forall args i0,
     (forall t, In t (arg_triggers e sf i0 args) -> Has t) ->
     forall i a, nth_error args i = Some a -> forall p, In p (uprods e a) ->
@@ -315,7 +324,7 @@ Section Judgement.
   Lemma analyze_J fuel : forall st e r,
     analyze ng ctr sp f fuel st e = Some r -> a_gsafe r = true -> incl_all (a_trig r) -> J st e (a_env r).
   Proof.
-    induction st as [| s1 IH1 s2 IH2 | x a | cs x g args | d x | c s1 IH1 s2 IH2 | c body IH | a | x k j | cs d x xi k m args | a er | cs x xe g args]; intros e r H Hg Hall; cbn in H.
+    induction st as [| s1 IH1 s2 IH2 | x a | cs x g args | d x | c s1 IH1 s2 IH2 | c body IH | a | x k j | cs d x xi k m args | a er | cs x xe g args | cs g args]; intros e r H Hg Hall; cbn in H.
     - inversion H; subst. constructor.
     - destruct (analyze ng ctr sp f fuel s1 e) as [r1|] eqn:E1; try discriminate.
       destruct (a_env r1) as [e1|] eqn:Ee1.
@@ -355,6 +364,9 @@ Section Judgement.
         * intros p Hp. apply Hall. apply in_map_iff. exists p. auto.
     - inversion H; subst. cbn in *. constructor; auto.
       intros i a Hn p Hp. apply (arg_triggers_ok e (fun i => SParam g i) args 0 Hall i a Hn p Hp).
+    - inversion H; subst. cbn in *. apply incl_all_app in Hall. destruct Hall as [Ha1 Ha2]. constructor; auto.
+      + intros i a Hn p Hp. apply (arg_triggers_ok e (fun i => SParam g i) args 0 Ha1 i a Hn p Hp).
+      + apply Ha2. left. reflexivity.
   Qed.
 End Judgement.
 
@@ -1000,7 +1012,7 @@ Section Sound.
     end.
   Proof.
     induction fuel as [|fuel IH]; intros g c st s oracle e o HJ Hok Hcalls Hr HG HD; cbn [exec]; auto.
-    destruct st as [| s1 s2 | x a | cs x h args | d x | cd s1 s2 | cd body | a | x ik j | cs d x xi ik m args | a er | cs x xe h args]; cbn in Hok.
+    destruct st as [| s1 s2 | x a | cs x h args | d x | cd s1 s2 | cd body | a | x ik j | cs d x xi ik m args | a er | cs x xe h args | cs h args]; cbn in Hok.
     - apply J_skip_inv in HJ. subst. eauto.
     - apply andb_true_iff in Hok. destruct Hok as [Hc1 Hc2]. apply calls_ok_seq in Hcalls. destruct Hcalls as [Hk1 Hk2].
       apply J_seq_inv in HJ. destruct HJ as [[H1 ->]|[e1 [H1 H2]]].
@@ -1228,6 +1240,36 @@ Section Sound.
         { intros Hev Hnil. exact (Hv Hnil Hev). }
         split; [eauto|]. split; auto.
         destruct xe as [ye|]; destruct x as [y|]; repeat apply DInv_sset; auto; apply HD'.
+    - (* return h(args) *)
+      apply J_retcall_inv in HJ. destruct HJ as [Hargs [Hus [Hfw ->]]].
+      destruct (nth_error (p_funcs prog) h) as [fd|] eqn:Eh; [|discriminate].
+      apply andb_true_iff in Hok. destruct Hok as [Hlen Hoks]. apply Nat.eqb_eq in Hlen.
+      assert (Hvs : forall v, In v (map (eval_atom s) args) -> Vok v).
+      { intros v Hv. apply in_map_iff in Hv. destruct Hv as [a [<- _]]. now apply Vok_atom. }
+      destruct (FuncsOK h fd None Eh I) as [og [HJh Hend]].
+      destruct (callee_entry h None s (map (eval_atom s) args) (f_nparams fd) HG HD Hvs) as [Hentry [HGentry HDentry]].
+      { now rewrite map_length. }
+      { intros i st0 Hi. rewrite nth_error_map in Hi. destruct (nth_error args i) as [a|] eqn:Ea; [|discriminate].
+        cbn in Hi. inversion Hi as [Hv]. cbn.
+        eapply (arg_site g c s e (fun i => SParam h i) args i a); eauto. }
+      pose proof (IH h None (f_body fd) _ oracle _ og HJh (WF h fd Eh) (CallsOK h fd Eh) Hentry HGentry HDentry) as R.
+      (* a nil-able result site of the callee makes this function's result nil-able (in its context) *)
+      assert (Hfwd : nu (SResult h) -> ret_ok g c).
+      { intros Hn. destruct c as [cs0|]; cbn.
+        - intros Hcp. replace (SCallResult g cs0) with (rsub g (Some cs0) (SResult g)) by (cbn; now rewrite Nat.eqb_refl).
+          eapply (tsite g (Some cs0) 0 (PSite (SResult h)) (SResult g)); [exact Hfw | |].
+          + cbn. destruct (asite_eqb (SResult h) (SParam g 0)) eqn:E0; [apply asite_eqb_eq in E0; discriminate|]. exact Hn.
+          + intros cs1 E1 _. inversion E1; subst. exact Hcp.
+        - change (SResult g) with (rsub g None (SResult g)).
+          eapply (tsite g None 0 (PSite (SResult h)) (SResult g)); [exact Hfw | exact Hn |]. intros cs1 E1. discriminate. }
+      destruct (exec prog fuel (f_body fd) (bind_params 0 (map (eval_atom s) args) ++ globals_of s) oracle) as [s' o'|v s' o'|d|]; auto.
+      + destruct R as [[e' [Heq _]] [HG' HD']]. destruct (after_call g c s s' e Hr HG' HD HD') as [A1 [A2 A3]].
+        split; [|split; [now apply GInv_local|split; [apply DInv_sset; auto; apply Vok_nil|apply Vok_nil]]].
+        intros _ _. apply Hfwd. change (SResult h) with (rsub h None (SResult h)).
+        eapply (tsite h None 0 PNil (SResult h)); [apply Hend; congruence | exact I |]. intros cs0 E0. discriminate.
+      + destruct R as [Hv [HG' [HD' Hvv]]]. destruct (after_call g c s s' e Hr HG' HD HD') as [A1 [A2 A3]].
+        split; [|split; [now apply GInv_local|split; [apply DInv_sset; auto; apply HD'|exact Hvv]]].
+        intros Hnil Hev. unfold VERR in Hev. rewrite sget_sset in Hev. cbn in Hev. apply Hfwd. exact (Hv Hnil Hev).
   Qed.
 End Sound.
 
